@@ -193,4 +193,5 @@ func runC14(e *Engine, r *Report) {
 			r.check(okd, "CONST-header-compression", "snapshotter.Load picks the decompressor from the file header", e.pos(ld.Pos()), "reader honours the header", "snapshotter.Load no longer selects the decompressor from the header's compression type")
 		}
 	}
+	ruleReaderBoundFromFile(e, r)
 }
